@@ -48,6 +48,20 @@ EXPECTED_PROBES = ["lists_dropped", "falsy_wrapper_values", "lists_with_repeats"
 
 OPCLS = ("Sum", "Product", "Quotient", "FloorDiv", "Power", "Call")
 P = "pymbolic.primitives."
+# canon class names of wrapper nodes: the stock one and a user subclass of it
+WRAPPERS = (P + "CommonSubexpression", "dst.c12.DerivedCse")
+
+
+def _derived_cse_class():
+    import pymbolic.primitives as p
+    cls = globals().get("DerivedCse")
+    if cls is None:
+        class DerivedCse(p.CommonSubexpression):
+            """an undecorated user subclass of the wrapper node (shares its mapper method)"""
+        DerivedCse.__module__ = "dst.c12"
+        DerivedCse.__qualname__ = "DerivedCse"
+        globals()["DerivedCse"] = cls = DerivedCse
+    return cls
 
 # {{{ generation
 
@@ -143,6 +157,9 @@ def _gen_list(r, wrapper_free, nv, shared_blocks=None, shared_wrapped=None):
 
     if not wrapper_free:
         def prewrap(t, d=0):
+            if t[0] == "n" and t[1] == "Variable" and t[2][0][1] in vars_ and r.random() < 0.04:
+                # the constructor also wraps a bare variable (the helpers would not)
+                return ["n", "CommonSubexpression", [t, ["none"], ["s", "pymbolic_eval"]]]
             if t[0] != "n":
                 return t
             t2 = ["n", t[1], [(["t", [prewrap(x, d + 1) for x in f[1]]] if f[0] == "t"
@@ -151,7 +168,8 @@ def _gen_list(r, wrapper_free, nv, shared_blocks=None, shared_wrapped=None):
                 px = r.choice([["none"], ["s", "u"], ["s", "v"]])
                 sc = r.choice([["s", "pymbolic_eval"], ["s", "pymbolic_eval"],
                                ["s", "pymbolic_expr"], ["s", "pymbolic_global"]])
-                t2 = ["n", "CommonSubexpression", [t2, px, sc]]
+                t2 = ["n", "DerivedCse" if r.random() < 0.12 else "CommonSubexpression",
+                      [t2, px, sc]]
                 if r.random() < 0.15:
                     t2 = ["n", "CommonSubexpression", [t2, ["none"], ["s", "pymbolic_eval"]]]
             return t2
@@ -165,7 +183,7 @@ def _gen_list(r, wrapper_free, nv, shared_blocks=None, shared_wrapped=None):
 
             def wrapped_subterms(t, acc):
                 if t[0] == "n":
-                    if t[1] == "CommonSubexpression":
+                    if t[1] in ("CommonSubexpression", "DerivedCse"):
                         acc.append(t)
                     for f in t[2]:
                         if f[0] == "t":
@@ -314,7 +332,7 @@ def _cls(c):
 def erase(c):
     if isinstance(c, list) and c:
         if c[0] == "E":
-            if c[1] == P + "CommonSubexpression":
+            if c[1] in WRAPPERS:
                 return erase(c[2][0])
             return ["E", c[1], [erase(f) for f in c[2]]]
         if c[0] == "tuple":
@@ -409,7 +427,7 @@ def execute(scenario, open_sigs):
 
     cfg = scenario["config"]
     nv = cfg["nv"]
-    B = spec.Builder()
+    B = spec.Builder({"DerivedCse": _derived_cse_class()})
     obs = HandlerObserver()
     events, known, probes, faults, states = [], [], {}, {}, set()
     violation = None
@@ -510,10 +528,10 @@ def execute(scenario, open_sigs):
         n = 0
         if isinstance(c, list) and c:
             if c[0] == "E":
-                if c[1] == P + "CommonSubexpression":
+                if c[1] in WRAPPERS:
                     ch = c[2][0]
                     if isinstance(ch, list) and ch and ch[0] == "E" \
-                            and ch[1] == P + "CommonSubexpression":
+                            and ch[1] in WRAPPERS:
                         n += 1
                 for f in c[2]:
                     n += nested_pairs(f)
@@ -562,7 +580,7 @@ def execute(scenario, open_sigs):
                 def walk_out(c, i):
                     if isinstance(c, list) and c and violation is None:
                         if c[0] == "E":
-                            if c[1] == P + "CommonSubexpression":
+                            if c[1] in WRAPPERS:
                                 return           # everything below is inside a wrapper
                             if _is_op(c) and deep(erase(c)) in must_be_inside:
                                 viol("C12/repeated-left-outside-wrappers",
@@ -583,10 +601,10 @@ def execute(scenario, open_sigs):
             def walk(c):
                 if isinstance(c, list) and c:
                     if c[0] == "E":
-                        if c[1] == P + "CommonSubexpression":
+                        if c[1] in WRAPPERS:
                             ch = c[2][0]
                             if isinstance(ch, list) and ch and ch[0] == "E" \
-                                    and ch[1] == P + "CommonSubexpression":
+                                    and ch[1] in WRAPPERS:
                                 bad.append(c)
                         for f in c[2]:
                             walk(f)
@@ -698,8 +716,9 @@ def execute(scenario, open_sigs):
         live = obs.frames_of_traceback(got[1]) if got[0] != "ok" else ()
         for c in comps:
             pc = c.parent
-            if pc is None or pc.handler != "map_common_subexpression_uncached" \
-                    or c.handler.startswith("map_common_subexpression"):
+            if pc is None or not pc.handler.startswith("map_common_subexpression") \
+                    or c.handler.startswith("map_common_subexpression") \
+                    or not isinstance(pc.expr, p.CommonSubexpression):
                 continue
             owner = pc.expr
             while isinstance(getattr(owner, "child", None), p.CommonSubexpression):
@@ -791,7 +810,7 @@ def execute(scenario, open_sigs):
                             return all(only_s2(x) for x in c[1])
                     return True
                 L["s2"] = wf and all(only_s2(c) for c in L["canon"])
-                s2_classes.add(P + "CommonSubexpression")
+                s2_classes.update(WRAPPERS)
                 L["s2w"] = all(only_s2(c) for c in L["canon"])     # ... plus wrappers
                 lists[lid] = L
                 occ = []
